@@ -31,10 +31,10 @@ PROPS = {
     "C13": dict(level="other", quick=Q(), thorough=Q()),
     "C14": dict(level="other", quick=Q(("pointers", 30, 200)), thorough=Q(("pointers", 400, 500))),
     "C15": dict(level="proof", quick=Q(("reset", 70, 200)), thorough=Q(("reset", 1500, 500), ("cache", 400, 400))),
-    "C16": dict(level="proof", quick=Q(("mixed", 30, 150)), thorough=Q(("mixed", 400, 400))),
+    "C16": dict(level="proof", quick=Q(("mixed", 30, 150), ("locks", 90, 200), ("relations", 40, 200)), thorough=Q(("mixed", 400, 400), ("locks", 400, 400), ("relations", 600, 400))),
     "C17": dict(level="proof", quick=Q(("churn", 40, 200), ("reset", 30, 150)), thorough=Q(("churn", 1000, 500), ("reset", 600, 400))),
     "C18": dict(level="proof", quick=Q(), thorough=Q()),
-    "C19": dict(level="other", quick=Q(), thorough=Q()),
+    "C19": dict(level="other", quick=Q(("churn", 40, 120), ("reset", 30, 120)), thorough=Q(("churn", 600, 300), ("reset", 400, 300))),
     "C20": dict(level="proof", quick=Q(("resources", 50, 200)), thorough=Q(("resources", 800, 500), ("mixed", 300, 300))),
 }
 
@@ -252,10 +252,11 @@ def correspondence(pid, tier, seed, harness, work):
     bad.sort(key=lambda r: (1 if r.get("soft") else 0, len(r.get("seq_lines", []))))
     for r in bad[:1]:
         lines = r["seq_lines"]
-        still, d0 = vlib.fails(pid, harness, lines, work, "repro")
+        hard = not r.get("soft")
+        still, d0 = vlib.fails(pid, harness, lines, work, "repro", need_hard=hard)
         if still:
-            small, tests = vlib.shrink(pid, harness, lines, work, budget=300 if tier == "quick" else 1500)
-            _, d = vlib.fails(pid, harness, small, work, "final")
+            small, tests = vlib.shrink(pid, harness, lines, work, budget=300 if tier == "quick" else 1500, need_hard=hard)
+            _, d = vlib.fails(pid, harness, small, work, "final", need_hard=hard)
         else:
             small, tests, d = lines, 0, r
         h = hashlib.sha256("\n".join(small).encode()).hexdigest()[:10]
@@ -584,3 +585,31 @@ def special_C18(tier, seed, harness, work):
     cov["rule"] = "one evaluation = one step (generic call + ID-based equivalent on the twin world, then full snapshot comparison); distinct non-trivial = (seed, arity, build) combinations, each a different random sequence of MapN/FilterN/QueryN calls incl. builder calls between queries and registration"
     cov["samples"] = ["arity 3: NewWith, Get (write through position pointers), f.Optional(1), f.Query, f.Exclusive(), f.Query, f.Register, f.Query …"]
     return {"coverage": cov, "violations": viol}
+
+
+def search_C13(work, reason):
+    """the no-map-iteration fact broke: look for an operation file whose re-execution differs"""
+    ok, log, harness = vlib.build_harness("verif")
+    if not ok:
+        return None
+    for seed in (1, 2, 3):
+        r = special_C13("quick", seed, harness, work)
+        if r["violations"]:
+            rp = r["violations"][0][0]
+            open(rp, "a").write("\n# found while searching for a failing input after a proof obligation broke:\n# " + reason.replace("\n", "\n# ")[:3000] + "\n")
+            return r["violations"][0]
+    return None
+
+
+def search_C19(work, reason):
+    """the no-shared-mutable-state fact broke: look for a data race / cross-talk between worlds"""
+    ok, log, harness = vlib.build_harness("verif")
+    if not ok:
+        return None
+    for seed in (1, 2):
+        r = special_C19("quick", seed, harness, work)
+        if r["violations"]:
+            rp = r["violations"][0][0]
+            open(rp, "a").write("\n# found while searching for a failing input after a proof obligation broke:\n# " + reason.replace("\n", "\n# ")[:3000] + "\n")
+            return r["violations"][0]
+    return None
